@@ -145,14 +145,17 @@ OSENV_PROPS = {"C01", "C02", "C03", "C04", "C05", "C06", "C08"}
 
 # memory-safety observations of the engines that own another property: a write outside dest seen by the normalization or
 # conversion engine is a C01 violation as well (a read fault a C02 violation); those engines place dest / src against guard pages
-SAFETY_WHY = {"C01": ("write_fault", "write_outside_dest", "write_in_front_of_dest"), "C02": ("fault_r", "read_fault")}
+SAFETY_WHY = {"C01": ("write_fault", "write_outside_dest", "write_in_front_of_dest", "fault_w"), "C02": ("fault_r", "read_fault"),
+              # the conversion functions are string-producing, destination-writing functions as well: their terminator, clearing,
+              # reporting, result and slack obligations are C03 / C04 / C05 / C06 / C08 observations too
+              "C03": ("unterminated",), "C04": ("dest_not_cleared",), "C05": ("report", "handler_on_success"),
+              "C06": ("count_differs_from_standard", "content_differs_from_standard", "spurious_failure", "no_room_accepted", "encoding_error_accepted"),
+              "C08": ("stale_slack",)}
+SAFETY_ENGINES = {"C01": ("norm", "mbs", "tok"), "C02": ("norm", "mbs", "tok"), "C03": ("mbs",), "C04": ("mbs",), "C05": ("mbs",), "C06": ("mbs",), "C08": ("mbs",)}
 
 
 def _is_safety(prop, why):
     return any(why == w or why.endswith(":" + w) or why.endswith(w) for w in SAFETY_WHY.get(prop, ()))
-
-
-TESTTRACE_PROPS = {"C01", "C02", "C03", "C04", "C05", "C06", "C07", "C08"}
 
 
 def add_safety(prop, tier, seed, workdir, res):
@@ -161,18 +164,21 @@ def add_safety(prop, tier, seed, workdir, res):
     if prop not in SAFETY_WHY:
         return res
     extra = 0
-    for name, fn, owner in (("norm", norm.run, "C17"), ("mbs", mbs.run, "C15")):
+    for name, fn, owner in (("norm", norm.run, "C17"), ("mbs", mbs.run, "C15"), ("tok", tok.run, "C14")):
+        if name not in SAFETY_ENGINES.get(prop, ()):
+            continue
         sub = fn(owner, tier, seed, workdir)
         extra += sub.coverage.get("evaluations", 0)
         for v in sub.violations:
             why = v["replay"].get("why", "")
             if _is_safety(prop, why):
                 res.violations.append(v)
-    res.coverage["safety_events_from_norm_and_mbs"] = extra
+    res.coverage["events_from_engines_owning_other_properties"] = extra
     res.coverage["evaluations"] = res.coverage.get("evaluations", 0) + extra
     res.coverage["traces_validated_against_impl"] = res.coverage.get("traces_validated_against_impl", 0) + extra
-    res.coverage["rule"] += ("; plus the memory-safety observations (dest and source flush against inaccessible pages, every dmax from 1 upwards) of the "
-                             "normalization / case-folding sweep (TraceNorm) and the multibyte conversion sweep (TraceMbs)")
+    res.coverage["rule"] += ("; plus the observations that concern this property made by the engines that own another one (%s): memory-safety "
+                             "(dest and source flush against inaccessible pages, every dmax from 1 upwards) for C01/C02, terminator / clearing / reporting / "
+                             "result / slack of the conversion functions for C03-C06 and C08" % ", ".join(SAFETY_ENGINES.get(prop, ())))
     return res
 
 
@@ -310,8 +316,8 @@ def replay(prop, path, workdir):
         return erase.replay(rp, workdir)
     elif rp["kind"] == "ts":
         return ts.replay(rp, workdir)
-    elif rp["kind"] in ("mbs", "norm"):
-        sub = mbs.replay(rp, workdir) if rp["kind"] == "mbs" else norm.replay(rp, workdir)
+    elif rp["kind"] in ("mbs", "norm", "tok") and (rp["kind"] != "tok" or prop in SAFETY_WHY):
+        sub = mbs.replay(rp, workdir) if rp["kind"] == "mbs" else norm.replay(rp, workdir) if rp["kind"] == "norm" else tok.replay(rp, workdir)
         if prop in SAFETY_WHY:      # replayed for C01 / C02: only the memory-safety observation counts
             sub.violations = [v for v in sub.violations if _is_safety(prop, v["cluster"])]
         return sub
